@@ -75,7 +75,22 @@ def cross_type_events(env, rng, thorough):
             ("Quantity.CreateDerived({cat_b: [u_b, 1], cat_a: [u_b, -2]})", lambda: Quantity.CreateDerived(OrderedDict([(cb, [ubc, 1]), (ca, [ubc, -2])]))),
             ("Quantity.CreateDerived({cat_a: [u_a, 2], cat_b: [u_a, -1]})", lambda: Quantity.CreateDerived(OrderedDict([(ca, [ua, 2]), (cb, [ua, -1])]))),
         ]
-        objs = [sa, sb, aa, ab, fa, fb]
+        # derived operands (a power, a product, a quotient): a target of another quantity type written with the SAME exponent, and a copy with a
+        # new amount in a unit that does not belong to the derived quantity
+        sq, pr, qu = sa * sa, sa * sb, sa / sb
+        asq = aa * aa
+        third = base[rng.choice([q_ for q_ in qts if q_ not in (a, b)])]
+        calls += [
+            ("(Scalar*Scalar).GetValue([(v,2)]): same exponent, unit of another type", lambda: sq.GetValue([(ubc, 2)])),
+            ("db.Convert(qt,[(u,2)],[(v,2)],x)", lambda: db.Convert(a, [(ua, 2)], [(ubc, 2)], 3.0)),
+            ("db.Convert(qt,[(u,-1)],[(v,-1)],x)", lambda: db.Convert(a, [(ua, -1)], [(ubc, -1)], 3.0)),
+            ("Quantity(u2).Convert(x,[(v,2)])", lambda: sq.GetQuantity().Convert(3.0, [(ubc, 2)])),
+            ("(Scalar*Scalar).CreateCopy(value, unit=v)", lambda: sq.CreateCopy(value=5.0, unit=ub)),
+            ("(Scalar*Scalar of another type).CreateCopy(value, unit of a third type)", lambda: pr.CreateCopy(value=5.0, unit=third)),
+            ("(Scalar/Scalar of another type).CreateCopy(value, unit=u)", lambda: qu.CreateCopy(value=5.0, unit=ua)),
+            ("(Array*Array).CreateCopy(values, unit=v)", lambda: asq.CreateCopy(values=[5.0, 6.0], unit=ub)),
+        ]
+        objs = [sa, sb, aa, ab, fa, fb, sq, pr, qu, asq]
         for name, fn in calls:
             n += 1
             full = n % 97 == 0
